@@ -2,6 +2,9 @@ import MCHap.Properties.C02
 #print axioms MCHap.C02.normalise_sum_one
 #print axioms MCHap.C02.gibbs_sum_one
 #print axioms MCHap.C02.gibbs_is_conditional
+#print axioms MCHap.C02.gibbs_is_conditional_F0
+#print axioms MCHap.C02.allelePrior_none_eq_flat
+#print axioms MCHap.C02.gibbs_flat_eq_explicit
 #print axioms MCHap.C02.gibbs_reversible
 #print axioms MCHap.C02.callW_eq_perms_mul_ordered
 #print axioms MCHap.C02.callW_perm
